@@ -587,10 +587,13 @@ impl<'a> Gen<'a> {
         } else if self.rng.pct(18) {
             // consuming methods (std defaults in terms of next)
             ["count", "last", "collect"][self.rng.below(3) as usize].to_string()
-        } else if self.rng.pct(75) {
+        } else if self.rng.pct(70) {
             "drop".to_string()
-        } else {
+        } else if self.rng.pct(60) {
             "forget".to_string()
+        } else {
+            // the caller's loop body panics: the iterator is dropped while unwinding
+            "panic".to_string()
         };
         // steps
         let mut steps: Vec<String> = Vec::with_capacity(nsteps);
@@ -1093,7 +1096,9 @@ impl<'a> Gen<'a> {
             let k = self.pick_op(&ws);
             let drain_phase = style != 0 && frac >= 0.8;
             let line = self.op(k, drain_phase);
-            if self.p.fuse && self.rng.pct(FUSE_PCT) {
+            // (never a fused callback under an iterator that is dropped while unwinding:
+            // a second panic inside its Drop is an abort by the language's rules)
+            if self.p.fuse && !line.contains(" panic ") && self.rng.pct(FUSE_PCT) {
                 let _ = write!(out, "{} {} ", if self.p.hfuse { "hfuse" } else { "fuse" }, self.rng.below(if self.p.hfuse { 3 * FUSE_MAX } else { FUSE_MAX }));
             }
             out.push_str(&line);
